@@ -61,8 +61,11 @@ PlanCreates(plan, kind) == \E j \in 1..Len(plan) : CreatesKind(plan[j].new, kind
 NoWalk == [phase |-> "none"]
 NoLeaf == [phase |-> "none"]
 
-Start(disk, plan, exdev, owner) ==
-  [disk |-> disk, cache |-> CacheOf(disk), plan |-> plan, i |-> 1, pc |-> "start",
+\* miss: which staged files do not exist - [any |-> TRUE] leaves it to the
+\* environment at each use (model checking), [any |-> FALSE, set |-> paths] fixes it
+AnyMissing == [any |-> TRUE, set |-> {}]
+Start(disk, plan, exdev, owner, miss) ==
+  [disk |-> disk, miss |-> miss, cache |-> CacheOf(disk), plan |-> plan, i |-> 1, pc |-> "start",
    w |-> NoWalk, lf |-> NoLeaf, stk |-> <<>>, ret |-> "none", held |-> Nil,
    results |-> <<>>, problems |-> {}, missing |-> FALSE, ops |-> 0,
    budget |-> Budget, cancelled |-> FALSE, exdev |-> exdev, owner |-> owner,
@@ -73,7 +76,7 @@ Init == \E disk \in DiskTrees, target \in TargetTrees :
           /\ plan # <<>>
           /\ \E exdev \in (IF PlanCreates(plan, "file") THEN BOOLEAN ELSE {FALSE}),
                 owner \in (IF PlanCreates(plan, "link") THEN BOOLEAN ELSE {FALSE}) :
-               s = Start(disk, plan, exdev, owner)
+               s = Start(disk, plan, exdev, owner, AnyMissing)
 
 \* ------------------------------------------------------------ primitives
 Problem(t, path) == [t EXCEPT !.problems = @ \cup {path}]
@@ -219,10 +222,12 @@ ChmodLeaf ==
 Replace(t) == t.lf.op = "swap"
 MissingReturn(t) == LeafReturn([t EXCEPT !.missing = TRUE], TRUE)
 Wanted(t) == DF(t.lf.exp.d, t.lf.exp.x, 2)
+MayExist(t) == t.miss.any \/ t.lf.path \notin t.miss.set
+MayBeMissing(t) == t.miss.any \/ t.lf.path \in t.miss.set
 ChmodStaged ==      \* provider.Provide + filesystem.SetPermissionsByPath(stagedPath, ...)
   /\ s.pc = "leaf" /\ s.lf.phase = "chmodstaged"
-  /\ s' \in Prim(s, "chmodstaged", [s EXCEPT !.lf.phase = "renamestaged"], LeafReturn(s, TRUE))
-            \cup {[MissingReturn(s) EXCEPT !.ops = s.ops + 1]}
+  /\ s' \in (IF MayExist(s) THEN Prim(s, "chmodstaged", [s EXCEPT !.lf.phase = "renamestaged"], LeafReturn(s, TRUE)) ELSE {})
+            \cup (IF MayBeMissing(s) THEN {[MissingReturn(s) EXCEPT !.ops = s.ops + 1]} ELSE {})
 RenameStaged ==     \* filesystem.Rename(nil, stagedPath, parent, name, replace)
   /\ s.pc = "leaf" /\ s.lf.phase = "renamestaged"
   /\ LET there == OnDisk(s)
@@ -232,10 +237,10 @@ RenameStaged ==     \* filesystem.Rename(nil, stagedPath, parent, name, replace)
                     ELSE IF fits THEN LeafReturn(DiskSet(s, s.lf.path, Wanted(s)), FALSE)
                     ELSE LeafReturn(s, TRUE),
                     LeafReturn(s, TRUE))
-               \cup (IF s.exdev THEN {} ELSE {[MissingReturn(s) EXCEPT !.ops = s.ops + 1]})
+               \cup (IF s.exdev \/ ~s.miss.any THEN {} ELSE {[MissingReturn(s) EXCEPT !.ops = s.ops + 1]})   \* vanished meanwhile
 OpenStaged ==       \* os.Open(stagedPath): the staged file may have vanished
   /\ s.pc = "leaf" /\ s.lf.phase = "openstaged"
-  /\ s' \in {[s EXCEPT !.lf.phase = "createtemp"], MissingReturn(s)}
+  /\ s' \in {[s EXCEPT !.lf.phase = "createtemp"]} \cup (IF s.miss.any THEN {MissingReturn(s)} ELSE {})
 CreateTemp ==       \* parent.CreateTemporaryFile
   /\ s.pc = "leaf" /\ s.lf.phase = "createtemp"
   /\ s' \in Prim(s, "createtemp", [s EXCEPT !.lf.phase = "chmodtemp"], LeafReturn(s, TRUE))
@@ -440,14 +445,15 @@ StaleEdit ==
 
 Done == s.pc = "done" /\ UNCHANGED s
 
-Next == \/ Begin \/ Loop \/ OpenRootParent \/ ListRootParent \/ OpenRoot \/ ListNames \/ OpenChild \/ ListLeaf
-        \/ StatLeaf \/ ReadLink \/ Unlink \/ ChmodLeaf
-        \/ ChmodStaged \/ RenameStaged \/ OpenStaged \/ CreateTemp \/ ChmodTemp \/ RenameTemp
-        \/ Symlink \/ ChownLink
-        \/ RemoveDispatch \/ RmOpen \/ RmList \/ RmIter \/ RmFinish
-        \/ CreateDispatch \/ MkDir \/ MkChmod \/ MkOpen \/ MkIter
-        \/ SwapDispatch
-        \/ Cancel \/ ExternalEdit \/ CreateEdit \/ StaleEdit \/ Done
+\* the code's own steps (no injected event, no external edit)
+Steps == \/ Begin \/ Loop \/ OpenRootParent \/ ListRootParent \/ OpenRoot \/ ListNames \/ OpenChild \/ ListLeaf
+         \/ StatLeaf \/ ReadLink \/ Unlink \/ ChmodLeaf
+         \/ ChmodStaged \/ RenameStaged \/ OpenStaged \/ CreateTemp \/ ChmodTemp \/ RenameTemp
+         \/ Symlink \/ ChownLink
+         \/ RemoveDispatch \/ RmOpen \/ RmList \/ RmIter \/ RmFinish
+         \/ CreateDispatch \/ MkDir \/ MkChmod \/ MkOpen \/ MkIter
+         \/ SwapDispatch
+Next == Steps \/ Cancel \/ ExternalEdit \/ CreateEdit \/ StaleEdit \/ Done
 Spec == Init /\ [][Next]_s
 
 \* ------------------------------------------------------------- invariants
